@@ -228,6 +228,34 @@ pub fn check_spend(rng: &mut Rng, acc: &mut Acc) -> Vec<String> {
         }
     }
     acc.seen("C13", &format!("updcfg|{caller2_admin}|{}", r2.ok));
+    // trader rotation with the routes left untouched: the new trader (and only it) may swap afterwards
+    {
+        let newtrader = addr20("osmo", "trader-next");
+        let before = w.query(&t, "{\"config\":{}}").unwrap_or(Value::Null);
+        let r3 = w.exec(&admin, &t, &json!({"update_config": {"trader": newtrader, "allowed_swap_routes": null}}).to_string(), &[]);
+        let after = w.query(&t, "{\"config\":{}}").unwrap_or(Value::Null);
+        if !r3.ok {
+            out.push(format!("trader-only UpdateConfig by the admin refused: {}", r3.err));
+        } else {
+            if vs(&after, "trader") != newtrader {
+                out.push(format!("UpdateConfig(trader) succeeded but the trader is still {}", vs(&after, "trader")));
+            }
+            if before.get("allowed_swap_routes") != after.get("allowed_swap_routes") || before.get("admin") != after.get("admin") {
+                out.push("trader-only UpdateConfig changed the allow-list or the admin".into());
+            }
+            let route = after.get("allowed_swap_routes").and_then(|x| x.as_array()).and_then(|a| a.first()).cloned();
+            if let Some(route) = route {
+                let first_in = route.as_array().and_then(|a| a.first()).map(|h| vs(h, "token_in_denom")).unwrap_or_default();
+                let m = json!({"swap_exact_amount_in": {"routes": route, "token_in": {"denom": first_in, "amount": "5"}, "token_out_min_amount": "1"}});
+                let r_old = w.clone().exec(&trader, &t, &m.to_string(), &[]);
+                let r_new = w.clone().exec(&newtrader, &t, &m.to_string(), &[]);
+                if r_old.ok || !r_new.ok {
+                    out.push(format!("after rotating the trader: old trader swap {}, new trader swap {}", if r_old.ok { "accepted" } else { "refused" }, if r_new.ok { "accepted" } else { "refused" }));
+                }
+            }
+        }
+        acc.seen("C13", &format!("rotate|{}", r3.ok));
+    }
     out
 }
 
